@@ -43,6 +43,7 @@ VARIABLES
   used,      \* party -> receiving MAC keys that verified an accepted message
   disclosedEver, \* party -> MAC keys disclosed in emitted messages
   leaks,     \* number of user texts emitted in clear although encryption was due
+  ksess,     \* party -> session id pair at the moment the party last went (or stayed) secure
   nrun,      \* SMP runs started so far
   smplog,    \* party -> sequence of <<event, own term, term in the message>> for SMP outcomes
   txlog,     \* <<text, resent>> of every data message emitted that carries a user text
@@ -54,8 +55,8 @@ VARIABLES
   evlog,     \* party -> sequence of security events
   path       \* schedule (history, not part of the fingerprint)
 
-vars == <<st, net, nx, nt, nsend, pc, hiA, phase, budget, delivered, accepted, rejects, evlog, used, disclosedEver, leaks, txlog, nrun, smplog, path>>
-view == <<st, net, nx, nt, nsend, pc, hiA, phase, budget, delivered, accepted, rejects, evlog, used, disclosedEver, leaks, txlog, nrun, smplog>>
+vars == <<st, net, nx, nt, nsend, pc, hiA, phase, budget, delivered, accepted, rejects, evlog, used, disclosedEver, leaks, txlog, nrun, smplog, ksess, path>>
+view == <<st, net, nx, nt, nsend, pc, hiA, phase, budget, delivered, accepted, rejects, evlog, used, disclosedEver, leaks, txlog, nrun, smplog, ksess>>
 
 FreshId(p) == Base(p) + nx[p] + 1
 Uses(s, id) == s.ax = id \/ s.cur = id
@@ -79,6 +80,7 @@ Init ==
   /\ disclosedEver = [p \in Parties |-> {}]
   /\ leaks = 0
   /\ txlog = <<>>
+  /\ ksess = [p \in Parties |-> <<0, 0>>]
   /\ nrun = 0
   /\ smplog = [p \in Parties |-> <<>>]
   /\ phase = IF Prelude # <<>> \/ PreludeDrain THEN "setup" ELSE "free"
@@ -96,6 +98,7 @@ Effect(p, r, step, own) ==
   /\ net' = [net EXCEPT ![p] = own, ![Other(p)] = @ \o r.out]
   /\ nx' = [nx EXCEPT ![p] = IF Uses(r.s, FreshId(p)) /\ ~Uses(st[p], FreshId(p)) THEN @ + 1 ELSE @]
   /\ evlog' = [evlog EXCEPT ![p] = @ \o SecEvents(r.evs)]
+  /\ ksess' = [ksess EXCEPT ![p] = IF \E i \in DOMAIN r.evs : r.evs[i] \in {"sec:GoneSecure", "sec:StillSecure"} THEN r.s.sess ELSE @]
   /\ disclosedEver' = [disclosedEver EXCEPT ![p] = @ \cup UNION {r.out[i].discl : i \in {j \in DOMAIN r.out : r.out[j].t = "D"}}]
   /\ leaks' = leaks + Cardinality({i \in DOMAIN r.out : r.out[i].t = "P" /\ r.out[i].text # NoText /\
                        OTREnabled(st[p]) /\ (step.a # "Send" \/ st[p].ms \in {"enc", "fin"} \/ st[p].pol.req)})
@@ -186,14 +189,14 @@ PreludeStep ==
                [] s.a = "Err" -> \* the peer's client sends an OTR error message to p
                                  /\ net' = [net EXCEPT ![p] = Append(@, ErrorMsg)]
                                  /\ path' = IF Export THEN Append(path, [a |-> "Err", p |-> p]) ELSE path
-                                 /\ UNCHANGED <<st, nx, nt, nsend, phase, budget, delivered, accepted, rejects, evlog, used, disclosedEver, leaks, txlog, nrun, smplog>>
+                                 /\ UNCHANGED <<st, nx, nt, nsend, phase, budget, delivered, accepted, rejects, evlog, used, disclosedEver, leaks, txlog, nrun, smplog, ksess>>
                [] s.a = "Deliver" -> /\ net[p] # <<>>
                                      /\ DeliverMsg(p, Head(net[p]), Tail(net[p]), 0, "Deliver")
                                      /\ UNCHANGED <<phase, budget>>
      ELSE IF PreludeDrain /\ net["B"] # <<>> THEN Deliver("B") /\ pc' = pc
      ELSE IF PreludeDrain /\ net["A"] # <<>> THEN Deliver("A") /\ pc' = pc
      ELSE /\ phase' = "free"
-          /\ UNCHANGED <<st, net, nx, nt, nsend, pc, budget, delivered, accepted, rejects, evlog, used, disclosedEver, leaks, txlog, nrun, smplog, path>>
+          /\ UNCHANGED <<st, net, nx, nt, nsend, pc, budget, delivered, accepted, rejects, evlog, used, disclosedEver, leaks, txlog, nrun, smplog, ksess, path>>
 
 \* "bag" network: the attacker picks any message in flight, may duplicate or drop
 DeliverAny(p) ==
@@ -215,7 +218,7 @@ Drop(p) ==
   /\ net' = [net EXCEPT ![p] = Tail(@)]
   /\ budget' = [budget EXCEPT !.drop = @ - 1]
   /\ path' = IF Export THEN Append(path, [a |-> "Drop", p |-> p]) ELSE path
-  /\ UNCHANGED <<st, nx, nt, nsend, pc, phase, delivered, accepted, rejects, evlog, used, disclosedEver, leaks, txlog, nrun, smplog>>
+  /\ UNCHANGED <<st, nx, nt, nsend, pc, phase, delivered, accepted, rejects, evlog, used, disclosedEver, leaks, txlog, nrun, smplog, ksess>>
 
 FreeDeliver(p) == phase = "free" /\ NetMode = "fifo" /\ Deliver(p) /\ pc' = pc
 
@@ -249,7 +252,7 @@ InjectOffer(p) ==
                                                ELSE [t |-> "Q", vs |-> SetToSeq(vs)])]
        /\ path' = IF Export THEN Append(path, [a |-> "Offer", p |-> p, vs |-> SetToSeq(vs), tagged |-> tagged]) ELSE path
   /\ budget' = [budget EXCEPT !.offer = @ - 1]
-  /\ UNCHANGED <<st, nx, nt, nsend, pc, phase, delivered, accepted, rejects, evlog, used, disclosedEver, leaks, txlog, nrun, smplog>>
+  /\ UNCHANGED <<st, nx, nt, nsend, pc, phase, delivered, accepted, rejects, evlog, used, disclosedEver, leaks, txlog, nrun, smplog, ksess>>
 
 Step ==
   \/ PreludeStep
@@ -332,6 +335,8 @@ AuthInv ==
      /\ st[p].sess[1] > 0 /\ st[p].sess[2] > 0
      /\ {OwnerOf(st[p].sess[1]), OwnerOf(st[p].sess[2])} = {p, st[p].peer}
      /\ st[p].tcur > 0 /\ OwnerOf(st[p].tcur) = st[p].peer
+\* the session id reported while encrypted is the one of the exchange that made the conversation encrypted
+SessStable == \A p \in Parties : st[p].ms = "enc" => st[p].sess = ksess[p]
 AgreeInv ==
   (st["A"].ms = "enc" /\ st["B"].ms = "enc" /\ st["A"].sess = st["B"].sess) =>
      /\ st["A"].peer = "B" /\ st["B"].peer = "A"
